@@ -144,7 +144,7 @@ func (c *Handle) Write(buf []byte) (int, error) {
 		return len(b), nil
 	}
 	total := 0
-	for i := MaxPlaintextSize; i < len(b); i += MaxPlaintextSize {
+	for i := 0; i < len(b); i += MaxPlaintextSize {
 		end := i + MaxPlaintextSize
 		if end > len(b) {
 			end = len(b)
